@@ -65,6 +65,13 @@ def arity_rule(model: Model, rep: Report, rid: str, ops: Sequence[str]) -> None:
                 guard = n
     r.check(ok_count and "self.pop(nargs)" in src, site(ex), ex.qualname, "operand count is the handler's arity; operands are popped from the argument stack", why="co_argcount/pop(nargs) idiom not found")
     r.check(guard is not None, site(ex), ex.qualname, "a handler is invoked only when all its operands are present (len(args) == nargs)", why="guard missing: an operator with missing operands would raise TypeError or run on a short list")
+    # pop(n) takes the last n operands (fewer if fewer are there) and always removes what it returns
+    pp = model.func(INTERP + ".pop")
+    pn = pp.params[1] if len(pp.params) > 1 else "n"
+    exits = [n for n in walk_no_nested(pp.node) if isinstance(n, ast.If) and any(isinstance(x, ast.Return) for x in n.body)]
+    ex_ok = all("".join(unparse(e.test).split()) in (f"{pn}==0", f"0=={pn}", f"not{pn}") for e in exits)
+    ps = "".join(unparse(pp.node).split())
+    r.check(ex_ok and f"x=self.argstack[-{pn}:]" in ps and f"self.argstack=self.argstack[:-{pn}]" in ps and ps.endswith("returnx"), site(pp), pp.qualname, "pop(n): returns argstack[-n:] and leaves argstack[:-n]; the only shortcut is n == 0", why=f"early exits {[unparse(e.test) for e in exits]}: operands of an operator that is short of operands must still be consumed, otherwise they are taken by a later operator")
 
 
 def stmt_node_of_call(g: CFG, pred) -> List[int]:
